@@ -5,9 +5,10 @@ PAST=1000000000
 
 class Inspections(PipelineBase):
     name='C08.inspections'
-    def __init__(self,ninsp=1,**kw):
-        PipelineBase.__init__(self,**kw); self.ninsp=ninsp
-        self.bounds={'layout':'1 step (threshold 1, one functionary), %d inspection(s)'%ninsp,
+    def __init__(self,ninsp=1,two_steps=False,**kw):
+        PipelineBase.__init__(self,**kw); self.ninsp=ninsp; self.two_steps=two_steps
+        if two_steps: self.name='C08.inspections_after_two_steps'
+        self.bounds={'layout':('2 steps (the second always in order)' if two_steps else '1 step')+' (threshold 1, one functionary), %d inspection(s)'%ninsp,
                      'failure_knobs':'owner signature validity free; layout expired or not; step link absent/present with free signature validity; step rules: none / DISALLOW * on products / REQUIRE of an absent material / MATCH against the not-yet-existing link of the inspection followed by DISALLOW *',
                      'inspection_run':'stub returns Err, or a link without exit status (what runlib records for an empty command; counts as not having exited successfully), or a link with any i32 exit status, products {} or {x}, under inspection rules none / DISALLOW * on products',
                      'hash_map_iteration':'every permutation'}
@@ -51,7 +52,11 @@ class Inspections(PipelineBase):
             left=dict(prods); left[nm+'.link']=[z3.BitVec('linkfile_%d'%i,8)]
             d.dyn_run=(lambda gi: (lambda m: ['/nonexistent-command-for-replay'] if gi['fail'] else ([] if gi['none'] else ['sh','-c',('touch x; ' if gi['own_x'] else '')+'exit %d'%model_value(m,gi['rv'])])))(gi)
             run.ghost['insp'][nm]=gi; ig.append(gi); insps.append(d)
-        lay=LayoutD([F0],[step],insps,expires=PAST if expired else FAR_FUTURE)
+        steps=[step]
+        if self.two_steps:
+            # a second step that is in perfect order FOLLOWS the one under test: a failure of an earlier item must not be forgotten
+            steps.append(StepD('s1',1,[F0])); dirs[()].append(FileD('s1',F0,BlockD('link',LinkD('s1',{'a':[1]},{'b':[2]}),[SigD(F0,F0)])))
+        lay=LayoutD([F0],steps,insps,expires=PAST if expired else FAR_FUTURE)
         lb=BlockD('layout',lay,[osig]); caller=[(OWN,OWN)]
         args=self.install(run,lb,caller,dirs)
         run.ghost['insp']={gi['name']:gi for gi in ig}
@@ -67,7 +72,9 @@ class Inspections(PipelineBase):
         small=z3.And(*[z3.And(gi['rv']>=0,gi['rv']<=255) for gi in g['insp']])
         if events:
             # (i) something was executed / written: every earlier stage must have passed
-            if self.classify(run,rec,z3.And(z3.Not(stages_ok),small),{},mk,'ran-inspection','an inspection command was started (or its link file written) although an earlier verification stage fails','inspection_before_steps_verified'): return rec
+            # natively an inspection leaves a trace only if its command could be started (the stub's spawn-error variant leaves none)
+            observable=any(e[0]=='write' or (e[0]=='run' and not run.ghost['insp'][e[1]]['fail']) for e in events)
+            if self.classify(run,rec,z3.And(z3.Not(stages_ok),small),{},mk if observable else (lambda m: None),'ran-inspection','an inspection command was started (or its link file written) although an earlier verification stage fails','inspection_before_steps_verified'): return rec
             self.wit(run,rec,'ran_inspection')
             # events of inspection k must not precede completion of inspection k-1's rule-independent run (order = layout order)
             names=[e[1] for e in events if e[0]=='run']
